@@ -103,6 +103,10 @@ class EllipticalMaskMixin:
                                                 edges[3], nx, ny, self.a_in,
                                                 self.b_in, theta_rad,
                                                 use_exact, subpixels)
+                # pixels entirely inside the inner ellipse have zero
+                # weight; remove the floating-point residue (which can
+                # be negative) left by the subtraction
+                mask[np.abs(mask) < 1.0e-14] = 0.0
 
             masks.append(ApertureMask(mask, bbox))
 
